@@ -98,6 +98,9 @@ class BundleInstance:
     ):
         self.name = name
         self.of = of
+        if isinstance(port, Visibility):
+            # `port` may be given as a `Visibility`: only `Visibility.PORT` makes a port
+            port = port == Visibility.PORT
         self.port = port  # FIXME: make this a `Visibility`
         self.flipped = flipped
         self.role = role
